@@ -193,6 +193,7 @@ func Run(o *hx.Out, g *hx.Rng, tier string) {
 	kcp.VerifPoolLog(true)
 	defer kcp.VerifPoolLog(false)
 	x := &runner{o: o, acqOf: map[int]int{}}
+	nth := 0
 	sc := bufio.NewScanner(f)
 	sc.Buffer(make([]byte, 1<<20), 1<<24)
 	for sc.Scan() {
@@ -202,6 +203,11 @@ func Run(o *hx.Out, g *hx.Rng, tier string) {
 		case len(t) == 3 && t[0] == "dec":
 			d, _ := strconv.Atoi(t[1])
 			p, _ := strconv.Atoi(t[2])
+			nth++
+			if tier == "thorough" && nth%2 == 0 { // thorough: every second decoder of fec's (much longer) run
+				x.dec = nil
+				continue
+			}
 			x.newDec(d, p, line)
 		case len(t) == 2 && t[0] == "newest" && x.dec != nil:
 			id, _ := strconv.ParseUint(t[1], 10, 32)
